@@ -44,13 +44,14 @@ def run(ctx):
         fs = ctx.facts(cfg)
         ctx.guard(name_first, ctx, cfg, fs)
         ctx.guard(first_name_only, ctx, cfg, fs)
+        ctx.guard(consumers.forkers, ctx, cfg, fs, 'D.depth')
         import wiring
         ctx.guard(wiring.builders, ctx, cfg, fs, 'N.name-first', r'^(command|params::<impl info::OptionParser<T>>::command|params::ParseCommand::<P>::(short|long|adjacent|help))$')
         ctx.guard(matched, ctx, cfg, fs)
         ctx.guard(keep_only, ctx, lambda: c07.table(ctx, cfg, fs), lambda o: 'depth=Less' in o.key or 'depth=Greater' in o.key, 'D.depth')
         ctx.guard(keep_only, ctx, lambda: c10.final(ctx, cfg, fs), lambda o: True, 'F.final')
         ctx.guard(keep_only, ctx, lambda: c07.fork(ctx, cfg, fs), lambda o: 'ParseOrElse' in o.key, 'D.depth')
-        ctx.guard(keep_only, ctx, lambda: c10.returns(ctx, cfg, fs), lambda o: o.rule == 'P.payload', 'L.own-level')
+        ctx.guard(keep_only, ctx, lambda: c10.returns(ctx, cfg, fs), lambda o: o.rule == 'P.payload' or 'inner-final-answer-precedes-lookup' in o.key, 'L.own-level')
         import c12
         ctx.guard(keep_only, ctx, lambda: c12.walker_rules(ctx, cfg, fs, 'G.registry', {'collect_shorts': c12.WALKERS['collect_shorts']}), lambda o: True, 'G.registry')
         ctx.guard(keep_only, ctx, lambda: c05.scope_restore(ctx, cfg, fs), lambda o: 'ParseCommand' in o.key, 'R.scope-restore')
